@@ -21,3 +21,13 @@ def pairs():
     "fwd_rezalloc": dict(name="fwd_rezalloc", harness=H, enforce="mi_rezalloc", replace=["mi_heap_rezalloc/c_fwd_heap_p_size"], label="P", functions=["mi_rezalloc"]),
     "expand": dict(name="expand", harness=H, enforce="mi_expand", replace=["_mi_usable_size"], label="P", functions=["mi_expand"]),
     }
+def dispatch_pairs():
+    # the entry of every allocation: which path, which arguments (contracts/malloc_dispatch.h)
+    P = lambda n, f, rep, fs: dict(name=n, entry="h_" + n, harness=H, enforce=f, replace=rep, label="P", functions=fs, timeout=300)
+    return [
+        P("small_zero", "mi_heap_malloc_small_zero/c_small_zero_spec", ["_mi_page_malloc_zero/c_page_malloc_zero_rec"], ["mi_heap_malloc_small_zero", "_mi_heap_get_free_small_page", "_mi_wsize_from_size"]),
+        P("malloc_zero_ex", "_mi_heap_malloc_zero_ex/c_malloc_zero_ex_spec", ["mi_heap_malloc_small_zero/c_small_zero_rec", "_mi_malloc_generic/c_malloc_generic_rec"], ["_mi_heap_malloc_zero_ex"]),
+        P("malloc_zero", "_mi_heap_malloc_zero/c_malloc_zero_spec", ["_mi_heap_malloc_zero_ex/c_malloc_zero_ex_rec"], ["_mi_heap_malloc_zero"]),
+        P("heap_malloc", "mi_heap_malloc", ["_mi_heap_malloc_zero/c_malloc_zero_rec"], ["mi_heap_malloc"]),
+        P("heap_zalloc", "mi_heap_zalloc", ["_mi_heap_malloc_zero/c_malloc_zero_rec"], ["mi_heap_zalloc"]),
+    ]
